@@ -87,7 +87,8 @@ pub trait Sut {
     /// complete list of operations explored from a state (BFS)
     fn ops(&self, state: &[u8]) -> Vec<Op>;
     /// one random operation
-    fn random_op(&self, rng: &mut Rng, state: &[u8]) -> Op;
+    /// `phase`: 0 = grow (towards full), 1 = churn, 2 = drain (towards empty)
+    fn random_op(&self, rng: &mut Rng, state: &[u8], phase: usize) -> Op;
     fn kind(&self, op: &Op) -> Kind;
     /// is the result a refusal (operation reports it did nothing)?
     fn refused(&self, op: &Op, out: &OpOut) -> bool;
@@ -100,6 +101,16 @@ pub trait Sut {
     /// further initial byte states explored alongside the zero buffer (BFS) / used as random starting points
     fn extra_initials(&self) -> Vec<Vec<u8>> {
         vec![]
+    }
+    /// Execute `ops` through ONE long-lived mutable handle on `buf` (C04: a handle kept across
+    /// operations must behave exactly like dropping and re-opening between them). `None`: the
+    /// operation list contains something a single handle cannot do.
+    fn session(&self, _buf: &mut ABuf, _ops: &[Op]) -> Option<Vec<String>> {
+        None
+    }
+    /// can `op` be part of a single-handle session? (buffer growth / explicit re-open cannot)
+    fn sessionable(&self, _op: &Op) -> bool {
+        false
     }
     /// is a panic the documented behaviour of `op` on `pre` (e.g. a buffer shorter than the prefix)?
     fn panic_expected(&self, _pre: &[u8], _op: &Op) -> bool {
@@ -341,8 +352,12 @@ pub fn random(
         sid += 1;
         st.states += 1;
         let n = if length > 4 { length / 2 + rng.below((length / 2 + 1) as u64) as usize } else { length };
+        // C04: segments of the history are replayed through one long-lived handle
+        let mut seg_start: Vec<u8> = cur.clone();
+        let mut seg_ops: Vec<Op> = vec![];
+        let mut seg_res: Vec<String> = vec![];
         for step in 0..n {
-            let op = if step == 0 && sut.init_op().is_some() { sut.init_op().unwrap() } else { sut.random_op(&mut rng, &cur) };
+            let op = if step == 0 && sut.init_op().is_some() { sut.init_op().unwrap() } else { sut.random_op(&mut rng, &cur, (step * 5 / n.max(1)) % 3) };
             let mut f = vec![];
             let (o, post) = transition(sut, &cur, &op, st.transitions, &mut f);
             st.transitions += 1;
@@ -378,6 +393,34 @@ pub fn random(
                 if st.findings.len() < limits.max_findings {
                     st.findings.push((fi, hist.clone()));
                 }
+            }
+            let panicked = o.panic.is_some();
+            if sut.sessionable(&op) && !panicked {
+                seg_ops.push(op.clone());
+                seg_res.push(o.result.clone());
+            }
+            let flush = !sut.sessionable(&op) || panicked || step + 1 == n || seg_ops.len() >= 64;
+            if flush {
+                if seg_ops.len() >= 2 {
+                    let end_bytes = if sut.sessionable(&op) && !panicked { &post } else { &cur };
+                    let mut sb = ABuf::new_skewed(&seg_start, 3, 0x66, sut.skew());
+                    if let Some(res) = sut.session(&mut sb, &seg_ops) {
+                        st.bump("session:segments");
+                        if res != seg_res || sb.bytes() != &end_bytes[..] {
+                            let at = res.iter().zip(seg_res.iter()).position(|(a, b)| a != b);
+                            let what = match at {
+                                Some(j) => format!("one long-lived handle answers `{}` with {} but re-opening before every operation gives {}", seg_ops[j].text(), res[j], seg_res[j]),
+                                None => format!("after {} operations through one long-lived handle the bytes differ from re-opening before every operation", seg_ops.len()),
+                            };
+                            if st.findings.len() < limits.max_findings {
+                                st.findings.push((Finding { property: "C04", what }, hist.clone()));
+                            }
+                        }
+                    }
+                }
+                seg_ops.clear();
+                seg_res.clear();
+                seg_start = post.clone();
             }
             cur = post;
         }
